@@ -58,7 +58,30 @@ impl RawW {
     }
 }
 
-pub const BIG: &[u64] = &[0, 1, 2, 63, 64, 16383, 16384, 999_999, 1_000_000, 1_000_001, (1 << 30) - 1, 1 << 30, (1 << 62) - 1];
+/// Field-boundary values: varint widths, the decoder's slice-count cap, and counts whose byte size (x 1200) is just below / at / above
+/// what usize can represent (so that sums with accounted memory overflow).
+pub const BIG: &[u64] = &[
+    0,
+    1,
+    2,
+    63,
+    64,
+    16383,
+    16384,
+    999_999,
+    1_000_000,
+    1_000_001,
+    (1 << 30) - 1,
+    1 << 30,
+    (1 << 62) - 1,
+    u64::MAX / 1200,
+    u64::MAX / 1200 - 1,
+    u64::MAX / 1200 + 1,
+    u64::MAX / 1200 - 9,
+    (u32::MAX / 1200) as u64,
+    (u32::MAX / 1200) as u64 + 1,
+    1 << 53,
+];
 
 pub fn boundary(src: &mut Src, around: &[u64]) -> u64 {
     match src.weighted(&[5, 5, 2]) {
